@@ -21,6 +21,14 @@ type peers map[store.NodeID]time.Time
 // Open returns a store.Store implementation using Badger as the storage
 // driver. The store should be (*badgerStore).Close()'d after use.
 func Open(opts badger.Options) (*badgerStore, error) {
+	// A process that is killed (or a machine that dies) while a commit is
+	// being written leaves a torn record at the end of the value log. Badger
+	// refuses to open such a database unless it is allowed to cut that record
+	// off; with synced writes, which is the default, nothing that was
+	// acknowledged can be behind it.
+	if opts.SyncWrites && !opts.ReadOnly {
+		opts.Truncate = true
+	}
 	db, err := badger.Open(opts)
 	if err != nil {
 		return nil, err
